@@ -9,6 +9,7 @@ import (
 	"fmt"
 	"os"
 	"reflect"
+	"strings"
 
 	"github.com/sdcio/yang-parser/xpath"
 	"github.com/sdcio/yang-parser/xpath/grammars/expr"
@@ -65,6 +66,7 @@ type Vector struct {
 	Prog     []xpm.Ins  `json:"prog"`
 	Calls    []xpm.Call `json:"calls"`
 	T        string     `json:"t"`
+	VClass   string     `json:"vclass"`
 	Judged   bool       `json:"judged"`
 	Rb       bool       `json:"rb"`
 	Rn       xpm.NumRec `json:"rn"`
@@ -79,10 +81,11 @@ type Mism struct {
 }
 
 type Outcome struct {
-	ID   int    `json:"id"`
-	Fam  int    `json:"fam"`
-	Expr string `json:"expr"`
-	Mism []Mism `json:"mism"`
+	ID     int    `json:"id"`
+	Fam    int    `json:"fam"`
+	Expr   string `json:"expr"`
+	VClass string `json:"vclass"`
+	Mism   []Mism `json:"mism"`
 }
 
 // RunResult is what a caller of the machine can observe.
@@ -256,7 +259,7 @@ func replay(args []string) {
 			}
 			id++
 			nvec++
-			o := Outcome{ID: id, Fam: v.Fam, Expr: v.Expr, Mism: []Mism{}}
+			o := Outcome{ID: id, Fam: v.Fam, Expr: v.Expr, VClass: v.VClass, Mism: []Mism{}}
 			text := xpm.ToReal(v.Expr)
 			m, cerr, pan := compile(text)
 			if pan != nil || cerr != nil || m == nil {
@@ -314,9 +317,9 @@ func replay(args []string) {
 					want := fmt.Sprintf("ENVFAIL-%d", k)
 					if rf.Panic != nil {
 						o.Mism = append(o.Mism, Mism{"fault-panic", want, rf.Panic})
-					} else if rf.Err != want {
+					} else if !strings.Contains(rf.Err, want) {
 						o.Mism = append(o.Mism, Mism{"fault-error", want, rf.Err})
-					} else if rf.BErr != want {
+					} else if !strings.Contains(rf.BErr, want) {
 						o.Mism = append(o.Mism, Mism{"fault-accessor", want, rf.BErr})
 					}
 				}
